@@ -67,6 +67,27 @@ def search(ck, tier, seed):
             if max(errs) > tol or any(math.isnan(v) for v in errs):
                 ck.finding("logabsdet:not-log-det-jacobian:%s" % e["name"],
                            "%s: |logabsdet - log|det J|| = %s (D=%d)" % (e["name"], ["%.3g" % v for v in errs], D), case)
+                continue
+            # the Jacobian above was taken by autograd, i.e. on the path that runs while gradients are tracked.  The map and its
+            # log-abs-det are the same numbers with gradients off (deployment) and with frozen parameters: one function, not two
+            if s == 0 and not any(hasattr(m, "cache") and hasattr(m, "use_cache") for m in t.modules()):
+                t2 = attempt(catalogue.build, e, seed + s)
+                if t2[0] == "ok":
+                    t2 = t2[1]
+                    ga = attempt(t2, x, ctx)
+                    with torch.no_grad():
+                        na = attempt(t2, x, ctx)
+                    for p_ in t2.parameters():
+                        p_.requires_grad_(False)
+                    fa = attempt(t2, x, ctx)
+                    if ga[0] == "ok" and na[0] == "ok" and fa[0] == "ok":
+                        dtol = 1e-2 if e["umnn"] else 1e-12
+                        dev = max(float((ga[1][0] - na[1][0]).abs().max()), float((ga[1][1] - na[1][1]).abs().max()),
+                                  float((ga[1][0] - fa[1][0]).abs().max()), float((ga[1][1] - fa[1][1]).abs().max()))
+                        if dev > dtol * (1 + float(ga[1][0].abs().max())):
+                            ck.finding("logabsdet:not-log-det-jacobian:gradient-mode-dependent:%s" % e["name"],
+                                       "%s: outputs / log-abs-det with gradients tracked differ from those under no_grad or with frozen parameters by %.3g, "
+                                       "so the log-abs-det is the log-determinant of at most one of the two maps" % (e["name"], dev), case)
     # an instance that was evaluated first and then received another checkpoint: outputs and log-abs-det must both come from the
     # parameters it holds NOW
     for e in ents:
